@@ -22,8 +22,7 @@ from harness.common import Failure, lean_run, rat, ratlist, intlist
 PROP_MODULES = ["ArmiVerif.Props.C02"]
 PARTIAL = ("floating-point rounding is outside the theorems (comparison tolerance 1e-9 relative); volumes of "
            "components are inputs of the model (shape areas are C03's; the derived shape's remainder is modelled); "
-           "lumped-fission-product expansion, element / list nuclide specifiers (checked by the oracle only) and "
-           "composition-dependent thermal expansion inside Component.updateNumberDensities are not modelled (no library "
+           "lumped-fission-product expansion and composition-dependent thermal expansion inside Component.updateNumberDensities are not modelled (no library "
            "material has the latter); at assembly level mass = density x volume and the mass read-backs carry the "
            "hypothesis of equal block areas (finding assembly-volume-first-block-area); a component with no nuclide entry "
            "at all reports its material's density (Comp.density, finding "
@@ -35,6 +34,11 @@ ASSUMPTIONS = [
     "Component.updateNumberDensities: the material's expansion does not depend on composition (true of every "
     "class in armi.materials), so the volume-preserving renormalisation branch is not taken",
     "dict iteration order and set order are not compared (values are compared per nuclide)",
+    "the element table (element symbol -> isotopes, elements.bySymbol without the natural pseudo-nuclide) is a parameter "
+    "of the selection model, read from the real tables for every symbol used; a selection naming something that is no "
+    "nuclide at all is an invalid request (calculateMassDensity raises KeyError) and outside the model; element-level "
+    "setMass / setMassFrac are not supported by the code unless the elemental nuclide itself is present (ValueError, "
+    "modelled as reject)",
 ]
 RTOL = 1e-9
 
@@ -120,6 +124,8 @@ class Mirror:
         self.ids = {}
         self.names = []
         self.phys_sent = None  # number of nuclides covered by the last phys line
+        self.elem = {}         # element symbol -> isotope names (elements.bySymbol, natural pseudo-nuclide excluded)
+        self.elem_sent = None
         self.lines = []      # request lines
         self.checks = []     # parallel: None | callable(model_line) -> None   (records disagreements itself)
 
@@ -130,7 +136,36 @@ class Mirror:
         return self.ids[name]
 
     def aw(self, name):
-        return self.nb.byName[name].weight
+        try:
+            return self.nb.byName[name].weight
+        except KeyError:
+            return 0.0      # a name that is no nuclide can never be present in a component
+
+    def flatten(self, spec):
+        if isinstance(spec, str):
+            return [spec]
+        out = []
+        for x in spec:
+            out += self.flatten(x)
+        return out
+
+    def spec_ids(self, spec):
+        """ids of a (nested) specifier; registers the element table rows it may need"""
+        from armi.nucDirectory import elements
+
+        names = self.flatten(spec)
+        for n in names:
+            if n in elements.bySymbol and n not in self.elem:
+                self.elem[n] = [nb.name for nb in elements.bySymbol[n].nuclides
+                                if not isinstance(nb, self.nb.NaturalNuclideBase)]
+                for iso in self.elem[n]:
+                    self.nid(iso)
+        return [self.nid(n) for n in names]
+
+    def elements_line(self):
+        syms = list(self.elem)
+        return ("elements " + intlist([self.nid(x) for x in syms]) + " [" +
+                ",".join(intlist([self.nid(i) for i in self.elem[x]]) for x in syms) + "]")
 
     def emit(self, line, check=None):
         if self.phys_sent is not None and self.phys_sent != len(self.names) and not line.startswith("phys"):
@@ -138,6 +173,10 @@ class Mirror:
             self.lines.append(self.phys_line())
             self.checks.append(None)
             self.phys_sent = len(self.names)
+        if self.elem and self.elem_sent != len(self.elem) and not line.startswith(("phys", "elements", "new")):
+            self.lines.append(self.elements_line())
+            self.checks.append(None)
+            self.elem_sent = len(self.elem)
         self.lines.append(line)
         self.checks.append(check)
 
@@ -235,6 +274,82 @@ def add_snap(ctx, mir, what, case, obj, path, nucs):
                 return
 
     mir.emit(f"snap {pth(path)} {intlist([mir.nid(n) for n in nucs])}", check)
+
+
+def selection_specs(rng, obj):
+    """nuclide selections for this object: element symbols (present through isotopes, present as natural element,
+    absent), mixed lists with duplicates, nested lists, a valid but absent nuclide (an unknown name is an invalid
+    request: calculateMassDensity raises KeyError)"""
+    from armi.nucDirectory import elements, nuclideBases
+
+    here = sorted(obj.getNuclides())
+    els = []
+    for n in here:
+        nb = nuclideBases.byName[n]
+        el = getattr(nb, "element", None)
+        if el is not None and el.symbol not in els:
+            els.append(el.symbol)
+    specs = []
+    for e in rng.sample(els, min(3, len(els))):
+        specs.append(e)
+    for e in ("U", "ZR", "FE"):
+        if e not in specs:
+            specs.append(e)
+    if here:
+        a, b = rng.choice(here), rng.choice(here)
+        e = rng.choice(els) if els else "FE"
+        specs.append([a, e, b, a])
+        specs.append([[e], a, [b, [e]]])
+        specs.append([a, "AM241" if "AM241" not in here else "CM245"])   # a valid nuclide that is absent
+    return specs
+
+
+def add_selection(ctx, mir, what, case, obj, path, spec):
+    """getMass(spec) (and getMassFrac for a single name) vs Model massSel / massFracSel"""
+    ids = mir.spec_ids(spec)
+    val = float(obj.getMass(spec))
+    tot = abs(float(obj.getMass()))
+    scase = dict(case, selection=spec)
+
+    def check(line, val=val):
+        if line in ("reject", "bad-op") or not rel_close(val, common.unrat(line), scale=tot * 1e-9):
+            ctx.disagree(what, scase, line if line in ("reject", "bad-op") else float(common.unrat(line)), val)
+
+    mir.emit(f"masssel {pth(path)} {intlist(ids)}", check)
+    if not comp_empty(obj):
+        try:
+            mf = float(obj.getMassFrac(spec))
+        except Exception:
+            return
+
+        def check2(line, mf=mf):
+            if line in ("reject", "bad-op") or not rel_close(mf, common.unrat(line), scale=1e-9):
+                ctx.disagree(what + " (getMassFrac)", scase, line, mf)
+
+        mir.emit(f"massfracsel {pth(path)} {intlist(ids)}", check2)
+        # oracle: the mass fraction of a selection is the selection's share of the total mass
+        if tot > 0 and not fclose(mf, val / float(obj.getMass()), scale=1e-9) and level_of(obj) == "component":
+            ctx.fail(f"selection-massfrac-{level_of(obj)}", "getMassFrac(selection) == getMass(selection) / getMass()", scase,
+                     observed=mf, expected=val / float(obj.getMass()))
+    # oracle, independent of the model: a list is the sum over its distinct resolved members, component by component
+    if level_of(obj) == "core" and not ctx.thorough and isinstance(spec, list):
+        return
+    want = 0.0
+    from armi.nucDirectory import elements, nuclideBases
+
+    for c in leaves(obj):
+        chere = set(c.getNuclides())
+        res = set()
+        for n in mir.flatten(spec):
+            if n in chere:
+                res.add(n)
+            elif n in elements.bySymbol:
+                res.update(nb.name for nb in elements.bySymbol[n].nuclides
+                           if not isinstance(nb, nuclideBases.NaturalNuclideBase))
+        want += sum(float(c.getMass(n)) for n in res if n in chere)
+    if not fclose(val, want, scale=tot * 1e-9):
+        ctx.fail(f"selection-mass-{level_of(obj)}", "getMass(selection) == sum over components of the masses of the distinct "
+                 "nuclides the selection resolves to there", scase, observed=val, expected=want)
 
 
 def add_volfracs(ctx, mir, what, case, obj, path):
@@ -659,8 +774,40 @@ def edit_sequence(ctx, mir, assemblies, paths, targets, nedits, label, resync=6)
                      o, paths[id(o)], [n for n in nucs if n not in amb])
             if level_of(o) == "component":
                 add_comp_density(ctx, mir, f"{label}: Comp.density vs Component.density after {op}", case, o)
+            sp = rng.choice(selection_specs(rng, o))
+            add_selection(ctx, mir, f"{label}: massSel vs getMass(selection) after {op}", dict(case, observed_at=level_of(o)),
+                          o, paths[id(o)], sp)
             additivity(o, fail, nucs[:3])
     return paths
+
+
+def element_level_edits(ctx, mir, paths, objs, label):
+    """setMass / setMassFrac with an ELEMENT symbol: the code distributes over children holding that very name, so
+    unless the elemental nuclide itself is present the call is refused (ValueError) and nothing changes"""
+    for obj in objs:
+        here = set(obj.getNuclides())
+        for sym, op, a in (("U", "setmass", {"n": "U", "m": 5.0}), ("ZR", "setmf", {"d": {"ZR": 0.0625}}),
+                           ("FE", "addmass", {"n": "FE", "m": 2.0})):
+            if sym in here or (op == "setmf" and not (dens(obj) or 0.0) > 0):
+                continue
+            case = {"stream": label, "level": level_of(obj), "op": op, "args": a, "element_level": True}
+            bef = before_state(obj)
+            vclass = "element-absent"
+            res = apply_real(obj, op, a)
+            _rec(ctx, label, obj, op, a, res, vclass)
+            fail = lambda k, cl, o, e, case=case: ctx.fail(k, cl, case, observed=o, expected=e)  # noqa: E731
+            if res == "reject":
+                # as coded today: refused, nothing changes; the model refuses too
+                edit_oracle(obj, op, a, res, bef, fail)
+                mir.emit(model_line(mir, paths[id(obj)], op, a), expect_result(ctx, f"{label}: element-level edit", case, res))
+                continue
+            # an implementation that accepts element-level edits must read them back (judged by the oracle alone)
+            ctx.count(f"element-level {op} accepted")
+            if op == "setmass" and not fclose(float(obj.getMass(sym)), a["m"], tol=1e-8):
+                fail("element-level-setmass-readback", "setMass(element, m) reads back m for the element", float(obj.getMass(sym)), a["m"])
+            if op == "setmf" and not fclose(float(obj.getMassFrac(sym)), a["d"][sym], tol=1e-8):
+                fail("element-level-setmf-readback", "setMassFrac(element, f) reads back f", float(obj.getMassFrac(sym)), a["d"][sym])
+            return   # model and implementation are out of step from here on: stop this object list
 
 
 def make_reference(ctx):
@@ -733,12 +880,27 @@ def run_core(ctx, r):
                      b, paths[id(b)], bn)
             add_volfracs(ctx, mir, "core: Node.volFrac vs Block.getVolumeFractions",
                          dict(case, block=b.name, sym=b.getSymmetryFactor()), b, paths[id(b)])
+            for spec in selection_specs(rng, b)[:5]:
+                add_selection(ctx, mir, "core: massSel vs Block.getMass(selection)", dict(case, block=b.name), b, paths[id(b)], spec)
+                ctx.count("selection " + ("element/name" if isinstance(spec, str) else "list") + " @block")
+            cc = rng.choice(list(b))
+            for spec in selection_specs(rng, cc)[:3]:
+                add_selection(ctx, mir, "core: massSel vs Component.getMass(selection)", dict(case, block=b.name, comp=cc.name),
+                              cc, paths[id(cc)], spec)
+                ctx.count("selection " + ("element/name" if isinstance(spec, str) else "list") + " @component")
             c = rng.choice(list(b))
             additivity(c, fb, [])
             add_snap(ctx, mir, "core: Model/Compo vs Component", dict(case, block=b.name, comp=c.name),
                      c, paths[id(c)], pick_nucs(rng, c, 3))
             ctx.case(("ref-block", b.name), nontrivial=True)
     specifier_variants(core, fail)
+    for spec in ["U", "ZR", ["U235", "FE", "U235"], [["NA"], "U"]]:
+        add_selection(ctx, mir, "core: massSel vs Core.getMass(selection)", case, core, [], spec)
+        ctx.count("selection @core")
+    for a in cut[:3]:
+        for spec in selection_specs(rng, a)[:4]:
+            add_selection(ctx, mir, "core: massSel vs Assembly.getMass(selection)", dict(case, assembly=a.name), a, paths[id(a)], spec)
+            ctx.count("selection " + ("element/name" if isinstance(spec, str) else "list") + " @assembly")
     # core-level and cut-assembly-level edits, no resync (state carried on both sides)
     targets = [core] + cut[:3] + [cut[0][1], cut[-1][1]]
     for step in range(ctx.pick(3, 14)):
@@ -780,7 +942,8 @@ def run_assemblies(ctx, r):
         blocks = list(a)
         targets = [a] + blocks + [c for b in rng.sample(blocks, min(2, len(blocks))) for c in rng.sample(list(b), 2)]
         label = f"assembly sym={a.getSymmetryFactor():g}"
-        edit_sequence(ctx, mir, [a], paths, targets, ctx.pick(14, 60), label)
+        paths = edit_sequence(ctx, mir, [a], paths, targets, ctx.pick(14, 60), label)
+        element_level_edits(ctx, mir, paths, [a, blocks[1], list(blocks[1])[0]], label)
         run_session(ctx, mir, label)
 
 
@@ -949,8 +1112,13 @@ def run_generated(ctx):
             specifier_variants(o, fail)
             add_snap(ctx, mir, f"{label}: Model/Compo vs {level_of(o)}", dict(case, observed_at=level_of(o)), o, paths[id(o)], nucs)
             add_volfracs(ctx, mir, f"{label}: Node.volFrac vs getVolumeFractions", dict(case, observed_at=level_of(o)), o, paths[id(o)])
+            for spec in selection_specs(rng, o):
+                add_selection(ctx, mir, f"{label}: massSel vs getMass(selection)", dict(case, observed_at=level_of(o)), o,
+                              paths[id(o)], spec)
+                ctx.count("selection " + ("element/name" if isinstance(spec, str) else "list") + " @" + level_of(o))
         targets = [a] + blocks + [c for b in blocks[:2] for c in rng.sample(list(b), 2)]
-        edit_sequence(ctx, mir, [a], paths, targets, ctx.pick(12, 24), label)
+        paths = edit_sequence(ctx, mir, [a], paths, targets, ctx.pick(12, 24), label)
+        element_level_edits(ctx, mir, paths, [a, blocks[0], list(blocks[0])[0]], label)
         run_session(ctx, mir, label)
     if not made:
         raise common.Infra("no generated assembly could be built")
